@@ -1073,8 +1073,248 @@ def check_C11(tier, seed):
     return out.finish()
 
 
+# ----------------------------------------------------------------------------------------------
+# C14 / C15: polytopes with faces, decompositions fed to custom integrals (VFaces, VDecomp)
+# ----------------------------------------------------------------------------------------------
+def faces_model(out, tier):
+    fams = [("R3s", FAMILIES["R3s"])] if tier == "quick" else [("R3a", FAMILIES["R3a"]), ("P3b", FAMILIES["P3b"]), ("R3x", FAMILIES["R3x"])]
+    for name, spec in fams:
+        cfg = os.path.join(OUT, "tlc", "vfaces_%s.cfg" % name)
+        consts = dict(Inputs=("<-", "MCInputs"), Ties="keep", Order="fixed", LGx=spec["G"][0], LGy=spec["G"][1], LGz=spec["G"][2],
+                      LDim=spec["dim"], LPer=spec["per"], LNmin=spec["nmin"], LNmax=spec["nmax"], LFix=spec["fix"], UseFile=False, Emit=False)
+        write_cfg(cfg, constants=consts, invariants=["TypeOK", "Closed", "Euler", "Oriented", "FacesOK", "CcwInward", "OrderIndependent", "DecompOK"])
+        r = run_tlc("mc/MCVFaces.tla", cfg, env_extra={"VV_INPUTS": "/dev/null"}, timeout=3000)
+        if r.violation:
+            raise ToolError("VFaces model violates its own invariant (%s): %s\n%s" % (name, r.violation, r.raw_tail[-2000:]))
+        out.coverage["states"] = out.coverage.get("states", 0) + r.distinct
+        out.coverage["transitions"] = out.coverage.get("transitions", 0) + r.states
+        out.coverage.setdefault("models", {})["VFaces/" + name] = dict(states=r.distinct, wall=round(r.wall, 1))
+        log("VFaces/VDecomp model %s: %d states (%.1fs)" % (name, r.distinct, r.wall))
+
+
+def poly_pipeline(tier, seed, tag):
+    ensure_dirs()
+    binp = build_harness()
+    res_file = os.path.join(OUT, "%s_poly_result.json" % tag)
+    trace_file = os.path.join(OUT, "%s_poly_trace.ndjson" % tag)
+    run_harness(binp, ["poly", "--out", res_file, "--trace", trace_file, "--seed", str(seed), "--count", "16" if tier == "quick" else "150",
+                       "--nmax", "30" if tier == "quick" else "60"], timeout=7200)
+    res = json.load(open(res_file))
+    log("poly recorder: %s" % res["stats"])
+    cfg = os.path.join(OUT, "tlc", "vfacestrace.cfg")
+    write_cfg(cfg, spec="TSpec", invariants=["Consumed"], postcondition="TraceAccepted")
+    r = run_tlc("trace/VFacesTrace.tla", cfg, workers=1, dfs=True, env_extra={"VV_TRACE": trace_file}, tags=("VERDICT",), timeout=3000, xmx="8g")
+    if r.violation or not r.ok:
+        raise ToolError("VFacesTrace could not consume the trace: %s\n%s" % (r.violation or r.error, r.raw_tail[-2000:]))
+    return res, [v for _, v in r.cases], trace_file
+
+
+def apply_poly(out, res, verdicts, trace_file, prop):
+    ok = 0
+    bad = {}
+    for v in verdicts:
+        mine = [x for x in v["failed"] if (("[C14]" in x) == (prop == "C14"))]
+        if not v["failed"]:
+            ok += 1
+        for x in mine:
+            bad.setdefault(x, []).append(v["line"])
+    if bad:
+        lines = open(trace_file).read().splitlines()
+        for x, ls in bad.items():
+            out.violation("VFacesTrace rejected %d recorded cell(s): %s" % (len(ls), x), {"trace_line": json.loads(lines[ls[0] - 1]), "lines": ls[:20]})
+    for f in res["failures"]:
+        if f["prop"] == prop:
+            out.violation("%s detail=%s (input kind %s, n=%d)" % (f["what"], json.dumps(f["detail"])[:300], f["input"]["kind"], len(f["input"]["gens"])), f)
+    cov = out.coverage
+    cov["traces_validated_against_impl"] = ok
+    cov["evaluations"] = res["stats"]["cells"]
+    cov["distinct_nontrivial"] = res["stats"]["cells"]
+    cov["samples"] = res["samples"][:2]
+    cov["poly_stats"] = res["stats"]
+
+
+def check_C15(tier, seed):
+    out = Outcome("C15", tier, seed)
+    faces_model(out, tier)
+    res, verdicts, tf = poly_pipeline(tier, seed, "C15")
+    apply_poly(out, res, verdicts, tf, "C15")
+    out.coverage["rule"] = ("every constructed 3D cell of seeded float inputs (uniform, clustered, near-lattice, exact lattice, shells with ~90 faces, "
+                            "rings with ~30-gons, anisotropic, periodic or not) x masks (none, random, odd cells): one trace line per cell; TLC "
+                            "re-runs the face extraction on the recorded vertex triples and checks incidence, simple cycles, shared planes, "
+                            "direction, Euler, accessors; the harness checks vertex = plane intersection, inside all half-spaces, planarity, "
+                            "convexity + ccw about the inward normal, polygon area = area integral, discard/with_faces identity, rejection in 1D/2D")
+    out.assumptions = ["geometric clauses are checked numerically with tolerance 50 * (1e-9 scale + 2^12 ulp)", "unchecked accessors: memory safety itself is not "
+                       "decided (type-state machine VFaces.CanCall is enforced by the Rust type system)"]
+    return out.finish()
+
+
+def check_C14(tier, seed):
+    out = Outcome("C14", tier, seed)
+    faces_model(out, tier)
+    res, verdicts, tf = poly_pipeline(tier, seed, "C14")
+    apply_poly(out, res, verdicts, tf, "C14")
+    out.coverage["rule"] = ("the harness IS a downstream crate implementing CellIntegral / FaceIntegral (ProbeCell: signed volume + 10 monomial moments "
+                            "up to degree 2; ProbeFace: signed area, first moment, distance of fed triangles from the face plane): per cell the moments of "
+                            "both decompositions must equal those of the polytope integrated independently from its face polygons; per face the fed "
+                            "triangles lie in the plane and sum to the polygon area; TLC (VDecomp) checks the number of tetrahedra / triangles fed per "
+                            "plane in both decompositions and that the cell handed to init is the cell with the same index, under masks")
+    out.assumptions = ["per-cell extra data of a type other than () cannot be implemented downstream (blanket impl of the *WithData traits, E0119): "
+                       "the data-alignment clause is observed through the cell passed to init only (finding F10, DESIGN.md)",
+                       "moment tolerance 1e-9 * sum|tet volume| * (max |coordinate|)^degree"]
+    return out.finish()
+
+
+# ----------------------------------------------------------------------------------------------
+# C19: geometry helpers (VHelpers)
+# ----------------------------------------------------------------------------------------------
+HELP_INVS = ["DefProject", "DefProjectIntersection", "DefIntersect", "DefVolume", "DefArea", "DefTwo", "DefThree", "DefFour", "DefExtend", "EmitHelp"]
+
+
+def check_C19(tier, seed):
+    out = Outcome("C19", tier, seed)
+    ensure_dirs()
+    cases_file = os.path.join(OUT, "C19_cases.ndjson")
+    cfg = os.path.join(OUT, "tlc", "vhelpers.cfg")
+    write_cfg(cfg, constants=dict(R=2 if tier == "quick" else 3, EmitMod=1, Emit=True), invariants=HELP_INVS)
+    with open(cases_file, "w") as f:
+        r = run_tlc("VHelpers.tla", cfg, tag_sink={"HELP": f}, tags=("HELP",), timeout=3000)
+    if r.violation:
+        raise ToolError("VHelpers: a closed form violates its defining equation: %s\n%s" % (r.violation, r.raw_tail[-2000:]))
+    out.coverage["states"] = r.distinct
+    out.coverage["transitions"] = r.states
+    log("VHelpers: %d argument tuples (%.1fs)" % (r.distinct, r.wall))
+    binp = build_harness()
+    res_file = os.path.join(OUT, "C19_result.json")
+    run_harness(binp, ["helpers", "--cases", cases_file, "--out", res_file])
+    res = json.load(open(res_file))
+    log("helpers replay: %s" % res["stats"])
+    for f in res["failures"]:
+        out.violation("%s: %s detail=%s case=%s" % (f["case"]["op"], f["what"], json.dumps(f["detail"]), json.dumps(f["case"])[:200]), f)
+    out.coverage.update({
+        "traces_validated_against_impl": res["stats"]["cases"],
+        "evaluations": res["stats"]["evaluations"],
+        "distinct_nontrivial": res["stats"]["cases"],
+        "exhaustive": True,
+        "per_op": res["stats"]["per_op"],
+        "rule": "every small integer argument tuple of each exported helper (non-degenerate: independent normals, affinely independent points; "
+                "non-unit normals; integer-length offsets for extend); TLC checks the defining equations on the exact closed forms and prints "
+                "each tuple with its exact result; replay under 3 similarity embeddings with the plane normals rescaled by 1, 2.5, 0.3; "
+                "implementation outputs additionally checked directly (on the planes, idempotent, antisymmetric, passes through the points, "
+                "order independent); distinct = argument tuples",
+        "samples": res["samples"][:4],
+    })
+    out.assumptions = ["tolerance 1e-11 * (1 + coordinate scale), relaxed by the conditioning (offset/scale)^2 for circumsphere determinants",
+                       "irrational results compared after taking the square root of the exact squared value in f64"]
+    return out.finish()
+
+
+# ----------------------------------------------------------------------------------------------
+# C20: auxiliary structures (VAux)
+# ----------------------------------------------------------------------------------------------
+def knn_cases(seed, tier):
+    """Particle sets on the quarter-integer lattice inside [0, G) (TLC sees coordinates x4), cubic and non-cubic boxes,
+    several maximal cell widths, k from 0 to n-1."""
+    rng = random.Random(seed * 13 + 20)
+    cases = []
+    boxes = [(4, 4, 4), (3, 3, 3), (6, 2, 3), (2, 5, 4), (8, 1, 2), (5, 5, 1), (3, 7, 2)] if tier == "quick" else \
+        [(4, 4, 4), (3, 3, 3), (6, 2, 3), (2, 5, 4), (8, 1, 2), (5, 5, 1), (7, 3, 2), (2, 2, 9), (6, 6, 6), (1, 1, 12), (3, 7, 2), (10, 3, 1)]
+    for G in boxes:
+        for rep in range(3 if tier == "quick" else 8):
+            n = rng.randint(2, 40)
+            pts = set()
+            while len(pts) < n:
+                if rep == 0:
+                    p = (rng.randrange(G[0]) * 4 + 2, rng.randrange(G[1]) * 4 + 2, rng.randrange(G[2]) * 4 + 2)   # cell centres of the unit lattice
+                    if len(pts) >= G[0] * G[1] * G[2] - 1:
+                        n = len(pts) + 1
+                else:
+                    p = (rng.randrange(4 * G[0]), rng.randrange(4 * G[1]), rng.randrange(4 * G[2]))
+                pts.add(p)
+            pts = sorted(pts)
+            n = len(pts)
+            ks = sorted(set([0, 1, 2, n // 2, n - 1] + [rng.randint(0, n - 1)]))
+            for mcw in ([0.7, 1.0, 1.6, 3.0] if tier == "quick" else [0.5, 0.7, 1.0, 1.3, 1.6, 2.5, 3.0, 10.0]):
+                for k in ks:
+                    if k >= n:
+                        continue
+                    h, o = rng.choice([(1.0, [0.0, 0.0, 0.0]), (0.5, [1.0, 1.0, 1.0]), (2.0, [-3.0, 5.0, 0.5])])
+                    cases.append({"id": len(cases), "G": list(G), "pts": [[p[0] / 4.0, p[1] / 4.0, p[2] / 4.0] for p in pts],
+                                  "k": k, "mcw": mcw, "h": h, "o": o})
+    return cases
+
+
+def check_C20(tier, seed):
+    out = Outcome("C20", tier, seed)
+    ensure_dirs()
+    # exact minimal enclosing spheres of every small lattice point set
+    sph = os.path.join(OUT, "C20_spheres.ndjson")
+    cfg = os.path.join(OUT, "tlc", "vaux.cfg")
+    write_cfg(cfg, constants=dict(GX=2, GY=2, GZ=1, KMin=2, KMax=4 if tier == "quick" else 5, Emit=True),
+              invariants=["Exists", "Unique", "Contains", "EmitSphere"])
+    with open(sph, "w") as f:
+        r = run_tlc("mc/MCVAux.tla", cfg, tag_sink={"SPHERE": f}, tags=("SPHERE",), timeout=3000)
+    if r.violation:
+        raise ToolError("VAux: the brute-force minimal sphere is not well defined: %s\n%s" % (r.violation, r.raw_tail[-2000:]))
+    out.coverage["states"] = r.distinct
+    out.coverage["transitions"] = r.states
+    log("VAux spheres: %d point sets (%.1fs)" % (r.distinct, r.wall))
+    kc = knn_cases(seed, tier)
+    kf = os.path.join(OUT, "C20_knn_cases.ndjson")
+    with open(kf, "w") as f:
+        for c in kc:
+            # TLC needs integers: doubled coordinates
+            c2 = dict(c)
+            f.write(json.dumps(c2) + "\n")
+    binp = build_harness()
+    res_file = os.path.join(OUT, "C20_result.json")
+    tf = os.path.join(OUT, "C20_knn_trace_raw.ndjson")
+    run_harness(binp, ["aux", "--knn-cases", kf, "--sphere-cases", sph, "--out", res_file, "--trace", tf, "--seed", str(seed)])
+    res = json.load(open(res_file))
+    log("aux replay: %s" % res["stats"])
+    # integer coordinates for TLC (positions are multiples of 1/4)
+    tf2 = os.path.join(OUT, "C20_knn_trace.ndjson")
+    raw = []
+    with open(tf) as f, open(tf2, "w") as g:
+        for line in f:
+            o = json.loads(line)
+            raw.append(o)
+            o2 = dict(o)
+            o2["pts"] = [[int(round(4 * x)) for x in p] for p in o["pts"]]
+            g.write(json.dumps(o2) + "\n")
+    cfg = os.path.join(OUT, "tlc", "vauxtrace.cfg")
+    write_cfg(cfg, spec="TSpec", invariants=["Consumed"], postcondition="TraceAccepted")
+    r2 = run_tlc("trace/VAuxTrace.tla", cfg, workers=1, dfs=True, env_extra={"VV_TRACE": tf2}, tags=("VERDICT",), timeout=3000)
+    if r2.violation or not r2.ok:
+        raise ToolError("VAuxTrace could not consume the trace: %s\n%s" % (r2.violation or r2.error, r2.raw_tail[-2000:]))
+    findings = {f["id"]: f for f in load_known_findings()}
+    ok = 0
+    for _, v in r2.cases:
+        if not v["failed"]:
+            ok += 1
+            continue
+        rec = raw[v["line"] - 1]
+        cubic = rec["G"][0] == rec["G"][1] == rec["G"][2]
+        for x in v["failed"]:
+            out.violation("knn: %s (box %s, max cell width %s, k=%d, n=%d)" % (x, rec["G"], rec["mcw"], rec["k"], len(rec["pts"])), rec)
+    for f in res["failures"]:
+        out.violation("%s detail=%s" % (f["what"], json.dumps(f["detail"])[:300]), f)
+    out.coverage.update({
+        "traces_validated_against_impl": ok,
+        "evaluations": res["stats"]["knn_calls"] + res["stats"]["sphere_evaluations"],
+        "distinct_nontrivial": res["stats"]["knn_calls"] + res["stats"]["sphere_sets"],
+        "replay": res["stats"],
+        "rule": "knn: lattice particle sets (full and random) in cubic and non-cubic boxes x max cell widths x k in {0,1,2,n/2,n-1,random}: "
+                "every particle's list validated by TLC against the definition with exact distances; spheres: every subset of size 2..4(5) of a "
+                "3x3x2 lattice: TLC's exact minimal enclosing sphere (brute force over support sets) vs Welzl (equal), Epos6 (contains, not "
+                "smaller), Epos6 of spheres (contains), points shuffled, 3 embeddings; single points",
+        "samples": [kc[0], res["samples"][0] if res["samples"] else {}],
+    })
+    out.assumptions = ["knn on lattice particle sets only (exact distances for TLC)", "sphere tolerance 1e-7 relative (the library's own contains() uses 1e-10 slack)"]
+    return out.finish()
+
+
 CHECKS = {"C01": check_C01, "C02": check_C02, "C04": check_C04, "C05": check_C05, "C06": check_C06,
-          "C08": check_C08, "C16": check_C16, "C03": check_C03, "C07": check_C07, "C12": check_C12, "C13": check_C13, "C09": check_C09, "C17": check_C17, "C18": check_C18, "C10": check_C10, "C11": check_C11}
+          "C08": check_C08, "C16": check_C16, "C03": check_C03, "C07": check_C07, "C12": check_C12, "C13": check_C13, "C09": check_C09, "C17": check_C17, "C18": check_C18, "C10": check_C10, "C11": check_C11, "C14": check_C14, "C15": check_C15, "C19": check_C19, "C20": check_C20}
 
 
 def run_check(pid, tier, seed):
